@@ -214,7 +214,12 @@ M_RELEVANT = {
     "value-bits-changed": {"negative-zero", "tsid-preimage-collision", "name-regex-same-tagset"},
     "query-error": {"numeric-tag-value"},  # (repaired) "unknown value type" of the rotated exact-match reader
 }
-M_AGG = M_SELECT | M_LABELS | {"name-regex-same-tagset", "regex-on-empty-value", "empty-group-key", "matcher-on-missing-key"}
+M_AGG = M_SELECT | M_LABELS | {"name-regex-same-tagset", "regex-on-empty-value", "empty-group-key", "matcher-on-missing-key",
+                               "agg-value-has-brace", "binop-label-order", "binop-trailing-comma"}
+# binary operators between vectors: the classes that can keep an element from finding its partner / change an operand
+M_BIN = {"value-has-comma", "absent-label-matcher", "matcher-on-missing-key", "same-label-twice", "regex-on-empty-value", "empty-group-key",
+         "name-regex-same-tagset", "agg-value-has-brace", "binop-label-order", "binop-trailing-comma", "tsid-preimage-collision", "no-tags",
+         "tag-value-over-64k"}
 # classes of REPAIRED deviations (known_findings.txt `fixed:` lines).  They never excuse anything: a disagreement that a
 # still recorded class of the query can explain is reported under that class alone; one that only repaired classes could
 # explain is reported as e2em/in-class/<repaired class>, which no `known:` line lists any more — i.e. as a VIOLATION
@@ -227,7 +232,7 @@ M_FIXED = {"tsid-preimage-collision", "no-tags", "negative-zero", "json-escaped-
 def m_sig(what, cls):
     """e2em/<what> (series-missing, value-bits-changed, agg/<fn>, …) for inputs outside every recorded deviation class that
     could explain <what>; else e2em/in-class/<class+class>: the witness class is the input class, what went wrong is in the message"""
-    rel = M_AGG if what.startswith("agg") else M_RELEVANT.get(what, set())
+    rel = M_BIN if what.startswith("agg/binop") else M_AGG if what.startswith("agg") else M_RELEVANT.get(what, set())
     cs = set(c for c in cls if c and c in rel)
     if cs - M_FIXED:
         cs -= M_FIXED
@@ -265,6 +270,57 @@ def m_same_points(ep, gp):
     return set(ep) == set(gp) and all(nz(ep[t]) == nz(gp[t]) for t in ep)
 
 
+def compare_mbin(ia, mb, qi):
+    """binary operator between two vectors (Spec/Metrics.lean evalBin): the specification lists, per result label set, the
+    JUDGED samples (ts:value) and the samples it leaves open (ts:?).  Required: every judged sample is returned with that
+    value; every returned sample belongs to a listed label set and to a listed timestamp (judged → same value, open →
+    anything).  A label set all of whose samples are open need not be returned.  Names are not compared.  Latitude
+    `unaligned` (either operand): nothing but errors is compared."""
+    cls = [c for c in mb.get("cls", "").split(",") if c]
+    lat = set(c for c in mb.get("lat", "").split(",") if c)
+    if ia.get("kind") == "error":
+        return [(m_sig("query-error", cls), "binary-operator query %d answered with an error: %s" % (qi, unhex(ia.get("err", ""))[:200]))]
+    if ia.get("kind") != "mbin":
+        return [("e2em/protocol/kind", "query %d: impl kind %s model kind mbin" % (qi, ia.get("kind")))]
+    if "unaligned" in lat:
+        return []
+    fails = []
+    E, G = {}, {}
+    for _, labels, pts in m_parse_series(mb.get("ser", "")):
+        E[labels] = pts
+    dup = []
+    for _, labels, pts in m_parse_series(ia.get("ser", "")):
+        if not pts:
+            continue
+        if labels in G:
+            dup.append(labels)
+        G.setdefault(labels, {}).update(pts)
+    def sig(what):
+        return m_sig("agg/binop-" + what, cls)
+    if dup:
+        fails.append((sig("duplicate"), "query %d: the label set %s is reported by more than one result series" % (qi, [m_show(("", k)) for k in dup][:3])))
+    missing = sorted(k for k in E if k not in G and any(v != "?" for v in E[k].values()))
+    extra = sorted(k for k in G if k not in E)
+    if missing:
+        fails.append((sig("missing"), "query %d: result series %s missing (label sets that occur on both sides resp. that the set operator keeps)" % (qi, [m_show(("", k)) for k in missing][:4])))
+    if extra:
+        fails.append((sig("extra"), "query %d: result series %s not expected (their label set has no partner resp. the set operator drops them)" % (qi, [m_show(("", k)) for k in extra][:4])))
+    for k in sorted(E):
+        if k not in G:
+            continue
+        ep, gp = E[k], G[k]
+        bad = []
+        for t in sorted(set(ep) | set(gp)):
+            e, g = ep.get(t), gp.get(t)
+            if e == "?":
+                continue
+            if e is None or g is None or not (e == g or close(e, g)):
+                bad.append((t, e, g))
+        if bad:
+            fails.append((sig("value"), "query %d result %s: (ts, expected, got) %s" % (qi, m_show(("", k)), bad[:6])))
+    return fails
+
+
 def compare_metrics(ia, mb, qi):
     """selectors: exact equality of the series set, label sets, timestamps and value BITS; aggregations: exact
     rationals (avg: up to rounding).  Declared latitude (never silent):
@@ -285,7 +341,7 @@ def compare_metrics(ia, mb, qi):
     kind = mb.get("kind")
     cls = [c for c in mb.get("cls", "").split(",") if c]
     lat = set(c for c in mb.get("lat", "").split(",") if c)
-    if kind in ("bad-range", "magg-undefined"):
+    if kind in ("bad-range", "magg-undefined", "mbin-undefined"):
         return fails  # the specification does not define an answer
     if ia.get("kind") == "error":
         return [(m_sig("query-error", cls), "%s query %d answered with an error: %s" % (kind, qi, unhex(ia.get("err", ""))[:200]))]
@@ -387,7 +443,10 @@ def compare(impl, model):
     for qi, (a, b) in enumerate(zip(isegs, msegs)):
         ia, mb = seg_parse(a), seg_parse(b)
         kind = mb.get("kind")
-        if kind in ("mseries", "magg", "magg-undefined", "bad-range"):
+        if kind == "mbin":
+            fails += compare_mbin(ia, mb, qi)
+            continue
+        if kind in ("mseries", "magg", "magg-undefined", "mbin-undefined", "bad-range"):
             fails += compare_metrics(ia, mb, qi)
             continue
         cls = mb.get("cls", "")
